@@ -9,6 +9,7 @@
 //!        -> canonical subtree at `path` (e.g. `body.0.targets.0`) of the Module parse; t = ranges erased,
 //!           T = with ranges, r = only `@a..b` of that node.  The words after the source are arguments
 //!           for the Lean model (drv_c01) and are ignored here.
+//!   rangesok <mode> <hex src> <hex tree>  -> `ok` iff the tree is what the parser produces (with ranges) for src
 //!   expr <erase> <hex src>      -> canonical tree of ast::Expr::parse (the body of Expression mode)
 //!   suite <erase> <hex src>     -> `[stmt …]` of ast::Suite::parse
 //!   debug <mode> <hex src>      -> the raw `{:?}` text (diagnostics only)
@@ -97,6 +98,20 @@ fn handle(ws: &[&str]) -> String {
                             }
                         }
                         None => "(no-such-path)".into(),
+                    }
+                }
+                Err(e) => err_line(&e),
+            }
+        }
+        // C02: is the tree in the request what the real parser produces (with ranges) for the source?
+        ["rangesok", m, src, tree] => {
+            let (Some(mode), Some(src), Some(tree)) = (mode_of(m), unhex_str(src), unhex_str(tree)) else { return bad() };
+            match parse_starts_at(&src, mode, "<pvh>", TextSize::from(0)) {
+                Ok(t) => {
+                    if astdump::dump(&t, false) == tree {
+                        "ok".into()
+                    } else {
+                        "stale".into()
                     }
                 }
                 Err(e) => err_line(&e),
